@@ -185,6 +185,72 @@ def g_call(r, ver):
     return render_call(r.choice(m)) if m else 'count(1)'
 
 
+# ------------------------------------------------------------------ domain-specific call matrices
+# The generic pool above only reaches the argument-type checks of a function.  Functions whose argument is a small
+# language of its own (pictures, date formats, option maps) get well-formed and near-well-formed arguments here.
+FN_VALUES = ['0', '1', '-1', '0.5', '-0.0e0', '12345.678', '1e100', '1e-100', '0.000001', '99999999999999999999',
+             '123456789012345678901234567890.5', 'xs:double("INF")', 'xs:double("-INF")', 'xs:double("NaN")',
+             'xs:float("1.5")', 'xs:float("INF")', '()', '1.5e0']
+FN_PICTURES = ['0', '#', '#.00', '0.0', '0.0e0', '00.00e00', '#,##0.00', '#,###', '0%', '0\u2030', '0.0;(0.0)', ';', '',
+               '0.0.0', '0e', 'e0', '#e#', '0.0e0%', '##0.0##e0', ',0', '0,', '0.,0', '000,000.000,000', 'abc0', '0abc',
+               "'", '#0#', '1', '0.0e-0', '٠', '0;0;0']
+FI_VALUES = ['0', '1', '-1', '12', '1234567', '99999999999999999999', '()', '3999', '4000', '-5', '1000000000']
+FI_PICTURES = ['1', '01', '001', 'a', 'A', 'i', 'I', 'w', 'W', 'Ww', '1;o', 'w;o', '1;c', '#,##0', '1,000', '#', '', ';', 'Z',
+               '١', '一', 'α', 'А', '①', '⑴', '⒈', '1;o(-er)', 'w;o(-en)', '#,#', '0,0,0', '1;', ';o', 'Ww;t', '12', '0a', '1;x']
+FD_VALUES = ['xs:dateTime("2002-12-31T12:05:09.123Z")', 'xs:dateTime("-0045-01-01T00:00:00")', 'xs:date("2002-12-31+05:00")',
+             'xs:time("23:59:59.999-08:00")', '()', 'xs:dateTime("9999-12-31T23:59:59")', 'xs:date("0001-01-01")']
+FD_PICTURES = ['[Y]', '[Y0001]-[M01]-[D01]', '[D1o] [MNn], [Y]', '[h]:[m01] [PN]', '[H01]:[m01]:[s01].[f001]', '[z]', '[Z]', '[ZN]',
+               '[FNn,*-3]', '[dwo]', '[W]', '[w]', '[E]', '[C]', '[YI]', '[Yi]', '[YWw]', '[MN,3-3]', '[D]/[M]/[Y,2]', '[[', ']]',
+               '[', ']', '[Q]', '[Y', '[Y,]', '[Y,*]', '[Y,2-1]', '[Y,a-b]', '[f]', '[f,9-9]', '[s,*-0]', '[D01', '', '[ Y ]',
+               '[Z01:01t]', '[z0]', '[ZZ]', '[H]:[m]:[s] [ZN,*-3]', '[Dwo]', '[MNn,*-0]', '[Y9,999,*]']
+IETF = []
+for tz in ['GMT', 'gmt', 'Gmt', 'UT', 'ut', 'UTC', 'EST', 'est', 'Est', 'EDT', 'edt', 'CST', 'cdt', 'MST', 'mdt', 'PST', 'pDt', '+0500',
+           '-05:00', '+05:00 (EST)', '+0500 (est)', '(EST)', 'Z', 'z', 'XYZ', '', '+5', '-0000', '+2400', '+00:60', 'GMT+1']:
+    IETF.append('Wed, 06 Jun 1994 07:29:35 %s' % tz)
+    IETF.append('Wed Jun 06 11:54:45 %s 2013' % tz)
+for d in ['Wed, 6 Jun 94 07:29:35 GMT', 'Sunday, 06-Nov-94 08:49:37 GMT', 'Wed, 6 Jun 94 07:29 GMT', '6 Jun 1994 07:29:35', 'Jun 06 11:54:45 2013',
+          'wed, 06 jun 1994 07:29:35 GMT', 'Wed, 31 Feb 1994 07:29:35 GMT', 'Wed, 06 Jun 1994 24:00:00 GMT', 'Wed, 06 Jun 1994 25:00:00 GMT',
+          'Wed, 06 Jun 1994 07:29:60 GMT', 'Wed, 06 Jun 1994 07:29:35.123456789 GMT', 'Wed, 06 Jun 19940 07:29:35 GMT', 'Wed, 00 Jun 1994 07:29:35 GMT',
+          'Xyz, 06 Jun 1994 07:29:35 GMT', 'Wed, 06 Foo 1994 07:29:35 GMT', '', ' ', 'Wed,06 Jun 1994 07:29:35 GMT', 'Wed, 06 Jun 1994  07:29:35  GMT',
+          'Wed, 06-Jun-1994 07:29:35 GMT', 'Wed, 06 Jun 0000 07:29:35 GMT', 'Wed, 06 Jun 9 07:29:35 GMT', '1994-06-06T07:29:35Z']:
+    IETF.append(d)
+MATH_VALUES = ['0', '-0.0e0', '1', '-1', '0.5', '2', '1e308', '1e-320', 'xs:double("INF")', 'xs:double("-INF")', 'xs:double("NaN")', '()',
+               '99999999999999999999', '710', '-745.2', 'xs:float("3.4e38")']
+
+
+def domain_matrix():
+    """-> list of expression texts (XPath 3.0/3.1)"""
+    out = []
+    for v in FN_VALUES:
+        for p in FN_PICTURES:
+            out.append('format-number(%s, "%s")' % (v, p))
+    for v in FI_VALUES:
+        for p in FI_PICTURES:
+            out.append('format-integer(%s, "%s")' % (v, p))
+            if ';' not in p:
+                out.append('format-integer(%s, "%s", "en")' % (v, p))
+    for v in FD_VALUES:
+        fn = 'format-date' if 'xs:date(' in v else ('format-time' if 'xs:time(' in v else 'format-dateTime')
+        for p in FD_PICTURES:
+            out.append('%s(%s, "%s")' % (fn, v, p))
+            out.append('%s(%s, "%s", "en", (), ())' % (fn, v, p))
+            out.append('%s(%s, "%s", "de", "AD", "us")' % (fn, v, p))
+    for d in IETF:
+        out.append('parse-ietf-date("%s")' % d)
+    for f in ('exp', 'exp10', 'log', 'log10', 'sqrt', 'sin', 'cos', 'tan', 'asin', 'acos', 'atan'):
+        for v in MATH_VALUES:
+            out.append('math:%s(%s)' % (f, v))
+    for a in MATH_VALUES:
+        for b in MATH_VALUES:
+            out.append('math:pow(%s, %s)' % (a, b))
+            out.append('math:atan2(%s, %s)' % (a, b))
+    for v in FN_VALUES:
+        for p in ['-1', '0', '1', '2', '30', '400', '99999', '-99999', '()', '1.5', 'xs:double("NaN")']:
+            out.append('round(%s, %s)' % (v, p))
+            out.append('round-half-to-even(%s, %s)' % (v, p))
+    return out
+
+
 # ------------------------------------------------------------------ execution
 _ROOT = None
 
@@ -364,6 +430,9 @@ def run(h):
             for a in nums:
                 for b in nums:
                     corpus.append(('%s %s %s' % (a, op, b), 'ill-typed-operator'))
+    dm = domain_matrix()
+    for e in (dm[h.shard::h.nshards] if h.nshards > 1 else dm):
+        corpus.append((e, 'domain-call'))
     for _ in range(h.n(11000)):
         corpus.append(g_source(fr))
     if h.tier == 'thorough':
@@ -411,7 +480,7 @@ def floors(v):
         reasons.append('fewer than 3000 evaluations classified')
     if v.got('history_parses') < 1500:
         reasons.append('fewer than 1500 history parses compared with a fresh parser')
-    for o in ('mutation', 'random', 'ill-typed-call', 'ill-typed-operator'):
+    for o in ('mutation', 'random', 'ill-typed-call', 'ill-typed-operator', 'domain-call'):
         if v.got('origin', o) < 100:
             reasons.append('fewer than 100 %s sources' % o)
     return reasons
